@@ -147,6 +147,16 @@ def lemma_matrix_capacity(ctx, rule):
         grow_target = bt[1] if op in ("Gt", "Ge") else bt[0]
         keep_target = bt[0] if op in ("Gt", "Ge") else bt[1]
         strict = op in ("Gt", "Lt")
+        # the growth test is the comparison whose "need exceeds size" side assigns the size field (a debug_assert! on the
+        # same two quantities is not)
+        assigns_size = False
+        for abi, si, st in pb.iter_stmts():
+            if st["k"] == "assign" and st["place"]["p"] and not pb.blocks[abi]["cleanup"]:
+                pth = U.field_path(sy.place(st["place"]))
+                if pth and pth[0] == "arg" and pth[1] == 1 and pth[2] == ["size"] and (cfg.dominates(grow_target, abi) or grow_target == abi):
+                    assigns_size = True
+        if found is not None and not assigns_size:
+            continue
         found = (bi, need, parts, grow_target, keep_target, strict)
     if not found:
         ctx.fail(rule, "L1", pb.where(), "growth test `max(len1+2, len2+2) > self.size` not recognised (fail closed)", kind="S")
